@@ -402,6 +402,14 @@ def r6_6(ctx, R, mus):
                 from_buf = srcfield[1:] in fields or any(re.search(c07.RE_REPLACE, c[1] or "") for c in expr_calls(src))
                 ctx.ob("R6.6", b, "iterates-whole-buffer@%s" % _site_label(b, bb), not bad and from_buf, b.loc(bb),
                        "chain %s over %s; truncating/unknown adaptors: %s" % ([c for c, _ in chain], expr_str(src), bad))
+                if "core::ops::Drop" not in b.path:
+                    # released once: outside the Drop impl the elements are released from a buffer that was moved OUT of
+                    # the field (mem::replace / mem::take leave an empty buffer behind), otherwise the Drop impl -- or a
+                    # second call -- releases the same elements again
+                    taken = any(re.search(c07.RE_REPLACE, c[1] or "") for c in expr_calls(src)) or \
+                        (src[0] == "call" and re.search(c07.RE_REPLACE, src[1] or "") is not None)
+                    ctx.ob("R6.6", b, "released-from-a-taken-buffer@%s" % _site_label(b, bb), taken, b.loc(bb),
+                           "iterated buffer: %s" % expr_str(src))
                 exits = loop_exit_edges(b, fl, nx[3])
                 early = [(a_, b_) for a_, b_, is_none in (exits or []) if not is_none]
                 ctx.ob("R6.6", b, "loop-left-only-on-exhaustion@%s" % _site_label(b, bb), exits is not None and not early, b.loc(nx[3]),
@@ -436,6 +444,32 @@ def r6_6(ctx, R, mus):
                             continue
                         work_g.append(y_)
                 ok_g = bb not in seen_g
+                if not ok_g:
+                    # the test may be folded into a boolean that is switched on later (`a && matches!(..)`): decide per
+                    # flag/variant-feasible path, between the iterator step and the release
+                    from lib_flow import sensitive_paths
+                    try:
+                        arrivals = 0
+                        allok = True
+                        labs_c = {}
+                        for kind_, pth, know in sensitive_paths(b, fl, 2):
+                            for i_, x_ in enumerate(pth):
+                                if x_ != bb:
+                                    continue
+                                arrivals += 1
+                                j0 = max([j for j in range(i_) if pth[j] == nx[3]] or [0])
+                                crossed = False
+                                for j in range(j0, i_):
+                                    if pth[j] not in labs_c:
+                                        labs_c[pth[j]] = fl.edge_labels(pth[j])
+                                    if any(vacancy_edge(l_) for l_ in labs_c[pth[j]].get(pth[j + 1], [])):
+                                        crossed = True
+                                        break
+                                if not crossed:
+                                    allok = False
+                        ok_g = allok and arrivals > 0
+                    except RuntimeError:
+                        ok_g = False
                 if not ok_g:
                     # vacancy test carried by a `filter` adaptor of the iterator itself: its closure returns
                     # is_none(ACCESSOR(.., index of the enumerated element)) (or !is_some(..))
